@@ -238,8 +238,15 @@ def _run_build(c, P):
             check_one_frame(c, w, sock, 8, [0x03, 0xE8] + want, 'close(1000, %d chars = %d bytes)' % (N, len(want)))
             cls = 'close_text_long:%dx%d' % (N, len(want) // N)
     elif kind == 'types':
-        which = c.choose(9, 'case')
+        which = c.choose(10, 'case')
         b = mk_bytes([c.byte('x0'), c.byte('x1')])
+        # a str that has no UTF-8 encoding: one lone surrogate (every one of U+D800..U+DFFF) between two ASCII characters
+        sur = c.int('sur', 16)
+        if c.concrete is None:
+            c.assume(z3.And(z3.UGE(sur.e, 0xD800), z3.ULE(sur.e, 0xDFFF)))
+            lone = mk_str([0x61, sur, 0x62])
+        else:
+            lone = 'a' + chr(0xD800 | (sur & 0x7FF)) + 'b'
         t = mk_str([c.int('y0', 7)]) if c.concrete is None else chr(c.int('y0', 7))
         cases = [
             ('send_text(bytes)', lambda: ws.send_text(b)),
@@ -251,6 +258,7 @@ def _run_build(c, P):
             ('send_ping(str)', lambda: ws.send_ping(t)),
             ('send_pong(str)', lambda: ws.send_pong(t)),
             ('send_pong(None)', lambda: ws.send_pong(None)),
+            ('send_text(lone surrogate)', lambda: ws.send_text(lone)),
         ]
         name, fn = cases[which]
         if name == 'send_binary(bytearray)':
